@@ -74,6 +74,28 @@ class Solver:
             self.stats.unsat += 1
             return 'unsat', None
         self.stats.unknown += 1
+        if not getattr(self, '_splitting', False):
+            # case split on the conditions of if-then-else subterms (compare results feeding arithmetic, e.g. a guard
+            # "divisor == -1" folded into the divisor): each case is far easier than the mixed query
+            flat = []
+            for c in conds:
+                flat.extend(c if isinstance(c, (list, tuple)) else [c])
+            sel = _ite_conditions(flat, 3)
+            if sel:
+                self._splitting = True
+                try:
+                    allunsat = True
+                    for k in range(1 << len(sel)):
+                        case = [sel[i] if (k >> i) & 1 else z3.Not(sel[i]) for i in range(len(sel))]
+                        r2, m2 = self.check(flat + case)
+                        if r2 == 'sat':
+                            return 'sat', m2
+                        if r2 != 'unsat':
+                            allunsat = False
+                    if allunsat:
+                        return 'unsat', None
+                finally:
+                    self._splitting = False
         return 'unknown', None
 
     def feasible(self, pc, cond=None):
@@ -92,6 +114,24 @@ def bv(val, width):
 
 def is_conc(t):
     return z3.is_bv_value(t)
+
+
+def _ite_conditions(terms, limit):
+    """conditions of If subterms (non-constant, distinct), at most `limit` of them"""
+    seen, out, stack, visited = set(), [], list(terms), set()
+    while stack and len(out) < limit:
+        t = stack.pop()
+        if t.get_id() in visited:
+            continue
+        visited.add(t.get_id())
+        if z3.is_app(t):
+            if t.decl().kind() == z3.Z3_OP_ITE:
+                c = t.arg(0)
+                if c.get_id() not in seen and not z3.is_true(c) and not z3.is_false(c):
+                    seen.add(c.get_id())
+                    out.append(c)
+            stack.extend(t.children())
+    return out
 
 
 def simp(t):
